@@ -126,6 +126,60 @@ Ltac cfg_lists :=
                | rewrite (list_set_map PBool)
                | rewrite (list_set_map PInt) ].
 
+(** * Names computed from the ASTs
+
+    The loop states below never mention a local variable of comm.py by a
+    literal: the names of the parameters, of the loop variables and of the
+    counters are read off the generated syntax trees (by [eval cbv] inside the
+    tactics, so the rest of each proof sees literals).  Renaming a local, or
+    introducing / inlining a single-use temporary outside the loops, does not
+    touch the proofs. *)
+Definition params (f : func) : list string := map fst (f_params f).
+Definition param0 (f : func) : string := match f_params f with (x, _) :: _ => x | [] => "" end.
+
+(** the first [for] of a block (target and body), looking into the branches of [if] *)
+Fixpoint first_for_s (s : stmt) : option (target * stmts) :=
+  match s with
+  | SFor t _ b => Some (t, b)
+  | SIf _ a b => match first_for_ss a with Some x => Some x | None => first_for_ss b end
+  | _ => None
+  end
+with first_for_ss (ss : stmts) : option (target * stmts) :=
+  match ss with
+  | Snil => None
+  | Scons s r => match first_for_s s with Some x => Some x | None => first_for_ss r end
+  end.
+
+(** [for x in ..]: x;  [for a, b in ..]: (a, b) *)
+Definition loop_var (f : func) : string :=
+  match first_for_ss (f_body f) with Some (TName x, _) => x | _ => "" end.
+Definition loop_pair (f : func) : string * string :=
+  match first_for_ss (f_body f) with Some (TNames [a; b], _) => (a, b) | _ => ("", "") end.
+Definition loop_body (f : func) : stmts :=
+  match first_for_ss (f_body f) with Some (_, b) => b | None => Snil end.
+
+(** the plain assignments [x = ..] in front of the first top-level [for], in order *)
+Fixpoint assigned_before_for (ss : stmts) : list string :=
+  match ss with
+  | Snil => []
+  | Scons (SFor _ _ _) _ => []
+  | Scons (SAssign (TName x) _) r => x :: assigned_before_for r
+  | Scons _ r => assigned_before_for r
+  end.
+
+(** the variable of the first augmented assignment [x += ..] of a block, looking into [if] *)
+Fixpoint first_aug_s (s : stmt) : option string :=
+  match s with
+  | SAug (TName x) _ _ => Some x
+  | SIf _ a b => match first_aug_ss a with Some x => Some x | None => first_aug_ss b end
+  | _ => None
+  end
+with first_aug_ss (ss : stmts) : option string :=
+  match ss with
+  | Snil => None
+  | Scons s r => match first_aug_s s with Some x => Some x | None => first_aug_ss r end
+  end.
+
 (** * 1. Readers and setters *)
 Lemma ch_is_enabled_func n c dev w q k :
   call_func program (S n) CommHandler_ch_is_enabled [comm c dev w q; PInt k] [] =
@@ -187,19 +241,25 @@ Proof.
     + exists (Some (PInt k)). reflexivity.
 Qed.
 
-Definition setter_env {A} (mk : list A -> pv) (extra : env) (ks : list Z) (st : list A * option pv) : env :=
-  ([("self", mk (fst st)); ("chans", PList (map PInt ks))] ++ extra
-     ++ match snd st with Some v => [("chan", v)] | None => [] end)%list.
+(** loop state of the setters: the receiver with the vector so far, and the
+    loop variable once assigned.  [ps]: the parameter names of the method (the
+    receiver first), [args]: the values of the other parameters, [lv]: the
+    loop variable -- all read off the AST by [setter_loop]/[all_loop] *)
+Definition setter_env {A} (ps : list string) (lv : string) (mk : list A -> pv) (args : list pv)
+           (st : list A * option pv) : env :=
+  (combine ps (mk (fst st) :: args) ++ match snd st with Some v => [(lv, v)] | None => [] end)%list.
 
 (** the loop [for chan in chans: self._channels.<field>[chan] = x], by one script *)
-Ltac setter_loop mk extra x l0 ks :=
-  loop_env (setter_env mk extra ks (l0, @None pv));
-  rewrite (for_loop_fold_res (setter_env mk extra ks) PInt (set_step x (setter_env mk extra ks)));
+Ltac setter_loop f mk args x l0 ks :=
+  let ps := eval cbv in (params f) in
+  let lv := eval cbv in (loop_var f) in
+  loop_env (setter_env ps lv mk args (l0, @None pv));
+  rewrite (for_loop_fold_res (setter_env ps lv mk args) PInt (set_step x (setter_env ps lv mk args)));
   [ let o' := fresh "o" in let H := fresh "H" in
-    destruct (set_fold x (setter_env mk extra ks) ks l0 None) as [o' H];
-    rewrite H; unfold setter_env; destruct (set_many_at _ _ _); destruct o'; pyrun
+    destruct (set_fold x (setter_env ps lv mk args) ks l0 None) as [o' H];
+    rewrite H; unfold setter_env; cbn [combine fst snd app]; destruct (set_many_at _ _ _); destruct o'; pyrun
   | let l := fresh "l" in let o := fresh "o" in let k := fresh "k" in
-    intros [l o] k; unfold setter_env, set_step, set_at; cbn [fst snd app];
+    intros [l o] k; unfold setter_env, set_step, set_at; cbn [combine fst snd app];
     destruct o; pyrun; cfg_lists; reflexivity ].
 
 Lemma ch_enable_list_func n c dev w q ks :
@@ -210,7 +270,7 @@ Lemma ch_enable_list_func n c dev w q ks :
   end.
 Proof.
   pystart. pystepsc.
-  setter_loop (fun l => comm (Config.upd_en c l) dev w q) (@nil (string * pv)) true (Config.en_new c) ks.
+  setter_loop CommHandler_ch_enable (fun l => comm (Config.upd_en c l) dev w q) [PList (map PInt ks)] true (Config.en_new c) ks.
 Qed.
 
 Lemma ch_disable_int_func n c dev w q k :
@@ -229,7 +289,7 @@ Lemma ch_disable_list_func n c dev w q ks :
   end.
 Proof.
   pystart. pystepsc.
-  setter_loop (fun l => comm (Config.upd_en c l) dev w q) (@nil (string * pv)) false (Config.en_new c) ks.
+  setter_loop CommHandler_ch_disable (fun l => comm (Config.upd_en c l) dev w q) [PList (map PInt ks)] false (Config.en_new c) ks.
 Qed.
 
 (** ch_divider needs the mirror (it reads [self.dev.data.div_supported], for a log message only) *)
@@ -252,7 +312,8 @@ Lemma ch_divider_list_func n c cm flags rxp chans w q ks v :
   end.
 Proof.
   pystart. pystepsc; try solve [pyfinish].
-  all: setter_loop (fun l => comm (Config.upd_div c l) (dev_obj' cm flags rxp chans) w q) [("div", PInt v)] v (Config.div_new c) ks.
+  all: setter_loop CommHandler_ch_divider (fun l => comm (Config.upd_div c l) (dev_obj' cm flags rxp chans) w q)
+         [PList (map PInt ks); PInt v] v (Config.div_new c) ks.
 Qed.
 
 (** ** ch_enable_all / ch_disable_all: [for chan in range(self.dev.data.chmax): self.ch_enable(chan)] *)
@@ -260,26 +321,28 @@ Lemma fold_res_map {A B C} (f : A -> C -> PyLite.res A) (h : B -> C) l : forall 
   fold_res (fun a y => f a (h y)) l a = fold_res f (map h l) a.
 Proof. induction l as [|y r IH]; intros a; cbn [map fold_res]; [reflexivity|]. destruct (f a (h y)); cbn [bind]; auto. Qed.
 
-Definition all_env {A} (mk : list A -> pv) (st : list A * option pv) : env :=
-  ([("self", mk (fst st))] ++ match snd st with Some v => [("chan", v)] | None => [] end)%list.
+Definition all_env {A} (ps : list string) (lv : string) (mk : list A -> pv) (st : list A * option pv) : env :=
+  setter_env ps lv mk [] st.
 
 Definition range_ix (cm : Z) : list Z := map (fun k => 0 + Z.of_nat k) (seq 0 (Z.to_nat (cm - 0))).
 
-Ltac all_loop mk x l0 cm :=
+Ltac all_loop f mk x l0 cm :=
+  let ps := eval cbv in (params f) in
+  let lv := eval cbv in (loop_var f) in
   lazymatch goal with
   | |- context [for_loop ?P ?cf ?lf ?t ?b (range_list 0 cm) ?e] =>
       change (for_loop P cf lf t b (range_list 0 cm) e)
         with (for_loop P cf lf t b (map (fun k => PInt (0 + Z.of_nat k)) (seq 0 (Z.to_nat (cm - 0))))
-                (all_env mk (l0, @None pv)))
+                (all_env ps lv mk (l0, @None pv)))
   end;
-  rewrite (for_loop_fold_res (all_env mk) (fun k => PInt (0 + Z.of_nat k))
-             (fun a k => set_step x (all_env mk) a (0 + Z.of_nat k)));
-  [ rewrite (fold_res_map (set_step x (all_env mk)) (fun k => 0 + Z.of_nat k)); fold (range_ix cm);
+  rewrite (for_loop_fold_res (all_env ps lv mk) (fun k => PInt (0 + Z.of_nat k))
+             (fun a k => set_step x (all_env ps lv mk) a (0 + Z.of_nat k)));
+  [ rewrite (fold_res_map (set_step x (all_env ps lv mk)) (fun k => 0 + Z.of_nat k)); fold (range_ix cm);
     let o' := fresh "o" in let H := fresh "H" in
-    destruct (set_fold x (all_env mk) (range_ix cm) l0 None) as [o' H];
-    rewrite H; unfold all_env; destruct (set_many_at _ _ _); destruct o'; pyrun
+    destruct (set_fold x (all_env ps lv mk) (range_ix cm) l0 None) as [o' H];
+    rewrite H; unfold all_env, setter_env; cbn [combine fst snd app]; destruct (set_many_at _ _ _); destruct o'; pyrun
   | let l := fresh "l" in let o := fresh "o" in let k := fresh "k" in
-    intros [l o] k; unfold all_env, set_step; cbn [fst snd app];
+    intros [l o] k; unfold all_env, setter_env, set_step; cbn [combine fst snd app];
     destruct o; pyrun ].
 
 #[local] Hint Resolve ch_enable_int_func ch_disable_int_func : pyspec.
@@ -293,7 +356,7 @@ Lemma ch_enable_all_func n c cm flags rxp chans w q :
   end.
 Proof.
   pystart. pysteps.
-  all_loop (fun l => comm (Config.upd_en c l) (dev_obj' cm flags rxp chans) w q) true (Config.en_new c) cm.
+  all_loop CommHandler_ch_enable_all (fun l => comm (Config.upd_en c l) (dev_obj' cm flags rxp chans) w q) true (Config.en_new c) cm.
 Qed.
 
 Lemma ch_disable_all_func n c cm flags rxp chans w q :
@@ -304,7 +367,7 @@ Lemma ch_disable_all_func n c cm flags rxp chans w q :
   end.
 Proof.
   pystart. pysteps.
-  all_loop (fun l => comm (Config.upd_en c l) (dev_obj' cm flags rxp chans) w q) false (Config.en_new c) cm.
+  all_loop CommHandler_ch_disable_all (fun l => comm (Config.upd_en c l) (dev_obj' cm flags rxp chans) w q) false (Config.en_new c) cm.
 Qed.
 
 
